@@ -7,6 +7,13 @@ JEncDec(e) ==
   << R("C16", "probe_set_up", TRUE, r.setup /\ r.enc_ok, cls),
      R("C16", "ciphertext_layout", r.setup /\ r.enc_ok, r.plainlen = Len(e["in"]) /\ r.ctlen = 32 + 12 + r.plainlen + 16, cls),
      R("C16", "decrypt_of_encrypt_is_identity", r.setup /\ r.enc_ok, r.dec_ok /\ r.dec_same /\ r.second_same, cls),
+     \* a history of calls on ONE value: decrypt, decrypt again, a refused attempt with another key, decrypt again
+     R("C16", "decrypt_is_repeatable_on_one_value", r.setup /\ r.enc_ok /\ r.dec_ok /\ r.history_done, r.history_decrypts /\ r.history_reparsed_decrypts, cls),
+     R("C16", "decrypt_leaves_value_and_caller_slice_alone", r.setup /\ r.enc_ok /\ r.dec_ok /\ r.history_done, r.history_value_unchanged /\ r.history_caller_slice_unchanged, cls),
+     \* the same observation under the properties it also belongs to: the value still serialises to the bytes it had (C01) and the structure the
+     \* signing constructor produced still verifies (C06)
+     R("C01", "ser_unchanged_by_decryption", r.setup /\ r.enc_ok /\ r.dec_ok /\ r.history_done, r.history_value_unchanged, cls),
+     R("C06", "still_verifies_after_decryption", r.setup /\ r.enc_ok /\ r.dec_ok /\ r.history_done, r.history_value_unchanged /\ r.history_reparsed_decrypts, cls),
      R("C16", "matching_key_decrypts_in_every_documented_form", r.setup /\ r.enc_ok /\ r.dec_ok, r.dec_forms_same, cls),
      R("C16", "wrong_private_key_rejected", r.setup /\ r.enc_ok, r.wrongkey_rejected /\ r.wrongkey_bytes_rejected, cls),
      R("C16", "modified_ciphertext_rejected", r.setup /\ r.enc_ok /\ r.nmods >= 1, Len(r.accepted_mods) = 0, cls),
